@@ -206,8 +206,14 @@ def run_clock_restarted(prog, rep):
         key = f"{cls.name}.solve:run-clock-restarted"
         top = [st for st in f.node.body if isinstance(st, ast.Assign) and any(norm(t) == "self.solve_time_start" for t in st.targets) and
                isinstance(st.value, ast.Call) and (dotted(st.value.func) or "").endswith(("perf_counter", "time.time", "monotonic"))]
-        first_read = min([x.lineno for x in reads if not any(x is t for st in stores for t in st.targets)] or [10 ** 9])
-        if top and top[0].lineno < first_read:
+        # order by position among the top-level statements (inlined helper statements keep the helper's line numbers)
+        pos_of = {}
+        for i_, st_ in enumerate(f.node.body):
+            for x_ in ast.walk(st_):
+                pos_of[id(x_)] = i_
+        read_pos = [pos_of.get(id(x), 10 ** 9) for x in reads if not any(x is t for st in stores for t in st.targets)]
+        first_read = min(read_pos or [10 ** 9])
+        if top and pos_of.get(id(top[0]), 10 ** 9) < first_read:
             rep.ok("C18.R5", key, "solve() restarts the clock of the run before it is read", f.loc(top[0]))
         elif stores:
             rep.violation("C18.R5", key, f"`{norm(stores[0])[:70]}` does not restart the clock on every solve() (it is conditional, or comes after the elapsed time was read): the time "
@@ -240,9 +246,10 @@ def no_inplace_on_shared_values(prog, rep):
                                   "`add_edges_from(<edges>(data=True))`: the attribute dictionaries are new, the value objects are the caller's - for a mutable number (a "
                                   "0-dimensional numpy array) the caller's flow values are overwritten (kFlowDecomp leaves them at 0 and reports the weights [0.0, 0.0])",
                                   f.loc(a))
+        ldefs_ = {st_.targets[0].id: st_.value for st_ in ast.walk(f.node) if isinstance(st_, ast.Assign) and len(st_.targets) == 1 and isinstance(st_.targets[0], ast.Name)}
         for a in ast.walk(f.node):
             if isinstance(a, ast.Assign) and len(a.targets) == 1 and isinstance(a.targets[0], ast.Subscript) and isinstance(a.value, ast.BinOp) and \
-                    norm(a.value.left) == norm(a.targets[0]):
+                    norm(ldefs_.get(a.value.left.id, a.value.left) if isinstance(a.value.left, ast.Name) else a.value.left) == norm(a.targets[0]):
                 base = a.targets[0]
                 while isinstance(base, ast.Subscript):
                     base = base.value
